@@ -71,6 +71,14 @@ impl PriceLevel {
     }
 }
 
+#[cfg(feature = "verif")]
+impl PriceLevel {
+    /// Verification hook: look one resting order up by id (the public API only lists all of them).
+    pub fn verif_find(&self, order_id: OrderId) -> Option<Arc<OrderType<()>>> {
+        self.orders.find(order_id)
+    }
+}
+
 impl PriceLevel {
     /// Create a new price level
     pub fn new(price: u64) -> Self {
